@@ -19,6 +19,7 @@ package measure
 
 import (
 	"context"
+	"encoding/binary"
 	"fmt"
 	"math"
 
@@ -36,6 +37,13 @@ import (
 var (
 	_ logical.UnresolvedPlan = (*unresolvedGroup)(nil)
 	_ logical.Plan           = (*groupBy)(nil)
+)
+
+// kind bytes that start every component of a group-by key, see formatGroupByKey.
+const (
+	groupKeyKindNull byte = iota
+	groupKeyKindStr
+	groupKeyKindInt
 )
 
 // Deprecated: row-path measure plan; see .omc/g8-plan.md. The vec
@@ -168,19 +176,35 @@ func formatGroupByKey(point *measurev1.DataPoint, groupByTagsRefs [][]*logical.T
 				return 0, errors.New("tag index out of range")
 			}
 			tag := point.GetTagFamilies()[tagRef.Spec.TagFamilyIdx].GetTags()[tagRef.Spec.TagIdx]
+			// Every component is self-delimiting (kind byte, and a length prefix for strings), so that
+			// different tag tuples never feed the same bytes to the hash: without it ("ab","c") and
+			// ("a","bc"), or (null,"a") and ("a",null), fall into one group.
 			switch v := tag.GetValue().GetValue().(type) {
 			case *modelv1.TagValue_Str:
+				var prefix [5]byte
+				prefix[0] = groupKeyKindStr
+				binary.LittleEndian.PutUint32(prefix[1:], uint32(len(v.Str.GetValue())))
+				if _, innerErr := hash.Write(prefix[:]); innerErr != nil {
+					return 0, innerErr
+				}
 				_, innerErr := hash.Write([]byte(v.Str.GetValue()))
 				if innerErr != nil {
 					return 0, innerErr
 				}
 			case *modelv1.TagValue_Int:
+				if _, innerErr := hash.Write([]byte{groupKeyKindInt}); innerErr != nil {
+					return 0, innerErr
+				}
 				_, innerErr := hash.Write(convert.Int64ToBytes(v.Int.GetValue()))
 				if innerErr != nil {
 					return 0, innerErr
 				}
 			case *modelv1.TagValue_IntArray, *modelv1.TagValue_StrArray, *modelv1.TagValue_BinaryData:
 				return 0, errors.New("group-by on array/binary tag is not supported")
+			default:
+				if _, innerErr := hash.Write([]byte{groupKeyKindNull}); innerErr != nil {
+					return 0, innerErr
+				}
 			}
 		}
 	}
